@@ -1,5 +1,6 @@
 import KV.Proofs.WalSearch
 import KV.Proofs.WalFlip
+import KV.Proofs.WalTorn
 import KV.Base.Crc32c
 /-! # C15 — the consensus WAL returns exactly what was written and detects every corruption
 
@@ -648,22 +649,23 @@ theorem repair_after_bit_flip (c : Cfg) (ds : List Bytes) (i : Nat) (hcrc : c.cr
 have the same CRC-32C (the register is 0 after the first four bytes and a zero byte keeps it 0), and
 their lengths 4 and 5 differ in one bit. With a payload parser that accepts both, flipping the lowest
 bit of the length field of the record of `ff ff ff ff 00` makes the decoder return the DIFFERENT
-message `ff ff ff ff` (then end-of-log through the group reader, `corrupt` through a file). The
+message `ff ff ff ff` (the left-over byte `00` is then reported as corruption by every reader —
+since F38 also by the group reader, which used to report a clean end of log there). The
 framing protects the payload, not the length field; whether two such payloads both parse is a
 question about protobuf, outside this model. -/
 theorem len_flip_counterexample :
     decodeAll (cfgC [([0xFF, 0xFF, 0xFF, 0xFF], .other), ([0xFF, 0xFF, 0xFF, 0xFF, 0], .other)]) .group
-      (flipBit (frames (cfgC []) [[0xFF, 0xFF, 0xFF, 0xFF, 0]]) 63) = ([[0xFF, 0xFF, 0xFF, 0xFF]], .eof) ∧
+      (flipBit (frames (cfgC []) [[0xFF, 0xFF, 0xFF, 0xFF, 0]]) 63) = ([[0xFF, 0xFF, 0xFF, 0xFF]], .corrupt) ∧
     decodeAll (cfgC [([0xFF, 0xFF, 0xFF, 0xFF], .other), ([0xFF, 0xFF, 0xFF, 0xFF, 0], .other)]) .file
       (flipBit (frames (cfgC []) [[0xFF, 0xFF, 0xFF, 0xFF, 0]]) 63) = ([[0xFF, 0xFF, 0xFF, 0xFF]], .corrupt) := by
   constructor
   · have h1 := Res.of_asMsg (d := [0xFF, 0xFF, 0xFF, 0xFF]) (rest := [0])
       (r := decode (cfgC [([0xFF, 0xFF, 0xFF, 0xFF], .other), ([0xFF, 0xFF, 0xFF, 0xFF, 0], .other)]) .group
         (flipBit (frames (cfgC []) [[0xFF, 0xFF, 0xFF, 0xFF, 0]]) 63)) (by decide +kernel)
-    have h2 := Res.of_isEof
+    obtain ⟨x, h2⟩ := Res.of_isCorrupt
       (r := decode (cfgC [([0xFF, 0xFF, 0xFF, 0xFF], .other), ([0xFF, 0xFF, 0xFF, 0xFF, 0], .other)]) .group [0])
       (by decide +kernel)
-    rw [decodeAll_msg _ _ _ _ _ h1, decodeAll_eof _ _ _ h2]
+    rw [decodeAll_msg _ _ _ _ _ h1, decodeAll_corrupt _ _ _ x h2]
   · have h1 := Res.of_asMsg (d := [0xFF, 0xFF, 0xFF, 0xFF]) (rest := [0])
       (r := decode (cfgC [([0xFF, 0xFF, 0xFF, 0xFF], .other), ([0xFF, 0xFF, 0xFF, 0xFF, 0], .other)]) .file
         (flipBit (frames (cfgC []) [[0xFF, 0xFF, 0xFF, 0xFF, 0]]) 63)) (by decide +kernel)
@@ -726,6 +728,147 @@ example : crc32c [0x00, 0x00, 0x55] ≠ crc32c [0xA0, 0x01, 0x55] :=
     [false, false, false, false, false] [false, false, false, false] [true, false, true, true]
     ([false, false, false, false, false, false, false] ++ bitsLE [0x55])
     (by decide) (by decide) rfl (by decide) (by decide)
+
+/-! ## torn tails: a truncation inside a record is never a clean end of log (F38)
+
+`Decode` reports end-of-log only when its first read returns NOTHING (`decode_eof_nil`). Before the
+repair F38 the group reader's `(n < 4, io.EOF)` at the end of the group was taken for it: a log torn
+1-3 bytes into a record read as intact, no repair ran, the next life appended behind the stray bytes
+(`short_fragment_clean_eof_counterexample_old_rule`; consequences in `KV/Props/C05.lean`). -/
+
+/-- **torn_tail_never_clean_eof.** Through the GROUP reader (consensus replay, `SearchForEndHeight`):
+every truncation of a written log that is not at a record boundary — the cut leaves ANY number
+≥ 1 of bytes of the next record, in particular 1, 2 or 3 — reads as exactly the complete records
+and then `corrupt`; never `eof`, never another message. No collision disjunct. -/
+theorem torn_tail_never_clean_eof (c : Cfg) (ds : List Bytes) (t : Nat) (hmax : c.max < 4294967296)
+    (hv : ∀ d ∈ ds, Valid c d) (ht : t < (frames c ds).length)
+    (hcut : ∀ j, t ≠ (frames c (ds.take j)).length) :
+    ∃ j, decodeAll c .group ((frames c ds).take t) = (ds.take j, .corrupt) ∧
+      (frames c (ds.take j)).length < t ∧ t < (frames c (ds.take (j + 1))).length := by
+  obtain ⟨j, p, hsplit, hp⟩ := take_frames c ds t
+  have hvj : ∀ d ∈ ds.take j, Valid c d := fun d hd => hv d (List.mem_of_mem_take hd)
+  have hlen := congrArg List.length hsplit
+  rw [List.length_take, List.length_append, Nat.min_eq_left (by omega)] at hlen
+  rcases hp with hp | ⟨d, q, hdj, hpq, hq⟩
+  · subst hp
+    exact absurd (by simpa using hlen) (hcut j)
+  · have hpne : p ≠ [] := by
+      intro h0; subst h0
+      exact absurd (by simpa using hlen) (hcut j)
+    have hd : d.length < 4294967296 := by
+      have := (hv d (List.mem_of_getElem? hdj)).2.1; omega
+    refine ⟨j, ?_, ?_, ?_⟩
+    · rw [hsplit, decodeAll_frames c .group (ds.take j) p hmax hvj,
+        decodeAll_torn_group_corrupt c d p q hd hpq hpne hq]
+      simp
+    · have : 0 < p.length := List.length_pos_iff.mpr hpne
+      omega
+    · have hq' : 0 < q.length := List.length_pos_iff.mpr hq
+      have hpq' := congrArg List.length hpq
+      rw [List.length_append] at hpq'
+      have h2 := congrArg List.length (frames_take_succ c ds j d hdj)
+      rw [List.length_append] at h2
+      omega
+
+/-- **truncate_prefix_group_verdict** (`truncate_prefix_group` with the verdict): a cut at a record
+boundary (or beyond the end) reads as the complete records then `eof`; a cut anywhere else as the
+complete records then `corrupt`. The two cases exclude each other, so `eof` ⇔ record boundary. -/
+theorem truncate_prefix_group_verdict (c : Cfg) (ds : List Bytes) (t : Nat)
+    (hmax : c.max < 4294967296) (hv : ∀ d ∈ ds, Valid c d) :
+    ∃ j, (decodeAll c .group ((frames c ds).take t) = (ds.take j, .eof) ∧
+        (frames c ds).take t = frames c (ds.take j)) ∨
+      (decodeAll c .group ((frames c ds).take t) = (ds.take j, .corrupt) ∧
+        (frames c (ds.take j)).length < t ∧ t < (frames c (ds.take (j + 1))).length) := by
+  by_cases hb : t < (frames c ds).length ∧ ∀ j, t ≠ (frames c (ds.take j)).length
+  · obtain ⟨j, h1, h2, h3⟩ := torn_tail_never_clean_eof c ds t hmax hv hb.1 hb.2
+    exact ⟨j, Or.inr ⟨h1, h2, h3⟩⟩
+  · have hex : ∃ j, (frames c ds).take t = frames c (ds.take j) := by
+      by_cases h1 : t < (frames c ds).length
+      · have : ¬ ∀ j, t ≠ (frames c (ds.take j)).length := fun h => hb ⟨h1, h⟩
+        have : ∃ j, t = (frames c (ds.take j)).length := by
+          apply Classical.byContradiction
+          intro hne
+          exact this (fun j hj => hne ⟨j, hj⟩)
+        obtain ⟨j, hj⟩ := this
+        refine ⟨j, ?_⟩
+        have hs : frames c ds = frames c (ds.take j) ++ frames c (ds.drop j) := by
+          rw [← frames_append, List.take_append_drop]
+        rw [hs, hj, List.take_left]
+      · exact ⟨ds.length, by rw [List.take_of_length_le (by omega), List.take_length]⟩
+    obtain ⟨j, hj⟩ := hex
+    refine ⟨j, Or.inl ⟨?_, hj⟩⟩
+    have hvj : ∀ d ∈ ds.take j, Valid c d := fun d hd => hv d (List.mem_of_mem_take hd)
+    have := decodeAll_frames c .group (ds.take j) [] hmax hvj
+    rw [hj]
+    simpa [decodeAll_nil] using this
+
+/-- **torn_tail_plain_readers.** The same cut through ANY reader kind (`file` = `*os.File` as used by
+`repairWalFile`, `bytes`): these readers never return bytes together with end-of-input (a short read
+has a nil error and `Decode` zero-fills), so the old rule was not wrong for them; a torn record is
+`corrupt`, or — when the lost tail was all zeros and the zero-filled buffer restores it — the
+record itself followed by `eof`, or the checksum collides. When the cut leaves at most 8 bytes of
+the record (torn HEADER: 1-3 bytes inside the checksum field, or inside the length field) and the
+parser rejects the empty payload it is always `corrupt`: the zero-filled field is followed by a
+read that meets the end of the input ("failed to read length" / "failed to read data"). -/
+theorem torn_tail_plain_readers (c : Cfg) (k : RKind) (ds : List Bytes) (t : Nat)
+    (hmax : c.max < 4294967296) (hv : ∀ d ∈ ds, Valid c d) (ht : t < (frames c ds).length)
+    (hcut : ∀ j, t ≠ (frames c (ds.take j)).length) :
+    ∃ j, (frames c (ds.take j)).length < t ∧ t < (frames c (ds.take (j + 1))).length ∧
+      (decodeAll c k ((frames c ds).take t) = (ds.take j, .corrupt) ∨
+        decodeAll c k ((frames c ds).take t) = (ds.take (j + 1), .eof) ∨ Collision c) ∧
+      (c.parse [] = none → t ≤ (frames c (ds.take j)).length + 8 →
+        decodeAll c k ((frames c ds).take t) = (ds.take j, .corrupt)) := by
+  obtain ⟨j, p, hsplit, hp⟩ := take_frames c ds t
+  have hvj : ∀ d ∈ ds.take j, Valid c d := fun d hd => hv d (List.mem_of_mem_take hd)
+  have hlen := congrArg List.length hsplit
+  rw [List.length_take, List.length_append, Nat.min_eq_left (by omega)] at hlen
+  rcases hp with hp | ⟨d, q, hdj, hpq, hq⟩
+  · subst hp
+    exact absurd (by simpa using hlen) (hcut j)
+  · have hpne : p ≠ [] := by
+      intro h0; subst h0
+      exact absurd (by simpa using hlen) (hcut j)
+    have hppos : 0 < p.length := List.length_pos_iff.mpr hpne
+    have hq' : 0 < q.length := List.length_pos_iff.mpr hq
+    have hpq' := congrArg List.length hpq
+    rw [List.length_append] at hpq'
+    have h2 := congrArg List.length (frames_take_succ c ds j d hdj)
+    rw [List.length_append] at h2
+    refine ⟨j, by omega, by omega, ?_, ?_⟩
+    · rw [hsplit, decodeAll_frames c k (ds.take j) p hmax hvj]
+      rcases decodeAll_torn_verdict c k d p q hpq hpne hq with h | h | h
+      · left; rw [h]; simp
+      · right; left
+        rw [h, List.take_add_one, hdj]
+        simp
+      · exact Or.inr (Or.inr h)
+    · intro hempty h8
+      obtain ⟨r, hr⟩ := decode_torn_header c k p hempty hpne (by omega)
+      rw [hsplit, decodeAll_frames c k (ds.take j) p hmax hvj, decodeAll_corrupt c k p r hr]
+      simp
+
+/-- **short_fragment_clean_eof_counterexample_old_rule** (regression, F38). One record, then the
+first byte of a second record, through the group reader: the decoder as it WAS (`decodeAllOld`:
+`io.EOF` after the first read = end of log, whatever was read) reports a clean end of log; the
+decoder as it is reports corruption (so that `OnStart` repairs the file before appending). -/
+theorem short_fragment_clean_eof_counterexample_old_rule :
+    decodeAllOld cfgT .group (frames cfgT [[1, 2, 3]] ++ (frame cfgT [9]).take 1) =
+      ([[1, 2, 3]], .eof) ∧
+    decodeAll cfgT .group (frames cfgT [[1, 2, 3]] ++ (frame cfgT [9]).take 1) =
+      ([[1, 2, 3]], .corrupt) := by
+  constructor
+  · decide +kernel
+  · have hv : ∀ d ∈ ([[1, 2, 3]] : List Bytes), Valid cfgT d := by
+      intro d hd; exact cfgT_valid d (by simp at hd; subst hd; simp)
+    rw [decodeAll_frames cfgT .group _ _ (by decide) hv,
+      decodeAll_torn_group_corrupt cfgT [9] _ ((frame cfgT [9]).drop 1) (by decide)
+        (List.take_append_drop 1 _) (by simp [frame, be32]) (by simp [frame, be32])]
+    rfl
+
+/-- the old rule was wrong only for the group reader: the plain readers never return bytes together
+with end-of-input, the two decoders agree on every input -/
+theorem old_rule_agrees_plain_readers (c : Cfg) (k : RKind) (s : Bytes) (hk : k ≠ .group) :
+    decodeOld c k s = decode c k s := decodeOld_eq_plain c k s hk
 
 -- evaluation on a sample (not a proof)
 #guard (List.range (8 * 12)).all fun i =>
